@@ -273,3 +273,40 @@ func VH_C11_search_equals() {
 	verifAssert(Search(key, rec) == ge, "Search == record not less than key")
 	verifReach("end")
 }
+
+// Two TEXT key columns with their own collations: a column's collation (and
+// DESC flag) must not carry over to its neighbour. Concrete spellings (a case
+// split, no solver variables): symbolic text in both columns at once was beyond
+// the solver (no verdict in 15 minutes).
+//verif:prop C11,C03
+//verif:shards 9
+//verif:bounds key of 2 text columns against a record of 2 text columns, every text one of "b", "B", "b ", "c"; per key column: collation binary / nocase / rtrim and ASC / DESC
+func VH_C11_two_text_columns() {
+	texts := [4]string{"b", "B", "b ", "c"}
+	sh := verifShard(9)
+	colls := [2]int{sh / 3, sh % 3}
+	key := make(Key, 2)
+	for i := range key {
+		key[i].V = texts[verifChoice(4)]
+		key[i].Desc = verifChoice(2) == 1
+		if colls[i] != 0 {
+			key[i].Collate = vhCollNames[colls[i]]
+		}
+	}
+	rec := Record{texts[verifChoice(4)], texts[verifChoice(4)]}
+	eq, ge := true, true
+	decided := false
+	for i := range key {
+		c := rmCompare(key[i].V, rec[i], colls[i])
+		if c != 0 {
+			eq = false
+		}
+		if !decided && c != 0 {
+			decided = true
+			ge = (c < 0) != key[i].Desc
+		}
+	}
+	verifAssert(Equals(key, rec) == eq, "Equals == equal on both columns, each under its own collation")
+	verifAssert(Search(key, rec) == ge, "Search == record not less than key, each column under its own collation and direction")
+	verifReach("end")
+}
